@@ -12,7 +12,7 @@ Not decided: actual content/size/digest values; compression-level behaviour.
 import re
 from engine import op_place, const_int
 from terms import TermBuilder, render
-from common import switch_info, arms_of, reach_from, err_assign_blocks, fmt_key
+from common import call_leaves, switch_info, arms_of, reach_from, err_assign_blocks, fmt_key
 from c01 import agg_fields
 from c08 import index_entries
 
@@ -110,10 +110,29 @@ def run(f, fixture, rep, cfg, tier):
     th = TermBuilder(ih)
     ext = dom_sorted(ih, [c for c in ih.calls() if c.decl == "std::iter::Extend::extend" or c.decl.endswith("Vec::<T, A>::push")])
     wseq = []
+
+    def field_name(x):
+        if x.startswith("self."):
+            return x[5:]
+        if x == "file_size":
+            return "file_size"
+        if "String::len(self.name)" in x and "1_usize" in x:
+            return "name_len"
+        if "file_checksum" in x:
+            return "checksum"
+        return "?" + x[:40]
     for c in ext:
         t = render(th.term(c.args[1]))
         m = re.search(r"new_lower_hex\((.*)\)\}\)\)\)$", t)
-        if m:
+        # `for field in [a, b, ...] { header.extend(format!("{:08x}", field)) }`: one emission per array element, in order
+        ma = re.fullmatch(r"std::iter::Iterator::next\(array\{(.*)\}\)<Some>\.0", m.group(1)) if m else None
+        mp = re.fullmatch(r'phi\(b"(0707\d\d)" \| b"(0707\d\d)"\)', t)
+        if ma and any(c.bb in blks for (_h, blks) in ih.loops()):
+            for x in [e.strip() for e in ma.group(1).split(", ")]:
+                wseq.append(field_name(x))
+        elif mp:
+            wseq += ["magic:" + mp.group(1), "magic:" + mp.group(2)]
+        elif m:
             x = m.group(1)
             if x.startswith("self."):
                 wseq.append(x[5:])
@@ -147,36 +166,43 @@ def run(f, fixture, rep, cfg, tier):
     tpls = [x for x in f.fmt if x["file"] == ih.file and min(lines) <= x["line"] <= max(lines)]
     bad = [x for x in tpls if not (len(x["pieces"]) == 1 and x["pieces"][0].get("trait") == "LowerHex" and "width: Some(Count(8))" in x["pieces"][0].get("opts", "").replace("Literal(8)", "Count(8)").replace("Some(Literal(8))", "Some(Count(8))") or
                                    (len(x["pieces"]) == 1 and x["pieces"][0].get("trait") == "LowerHex" and re.search(r"width: Some\(\w*\(?8\)?\)", x["pieces"][0].get("opts", "")) and "zero_pad: true" in x["pieces"][0].get("opts", "")))]
-    rep.check(len(tpls) == 13 and not bad, "R2", "writer|hex-width", "13 fields formatted as {:08x}", "%d templates, non-{:08x}: %s" % (len(tpls), [b_["pieces"] for b_ in bad][:2]), ih.span)
+    n_hex = sum(1 for c in ext if re.search(r"new_lower_hex\(", render(th.term(c.args[1]))))
+    rep.check(len(tpls) >= 1 and len(tpls) == n_hex and not bad, "R2", "writer|hex-width", "every field is formatted as {:08x}", "%d templates for %d hex emissions, non-{:08x}: %s" % (len(tpls), n_hex, [b_["pieces"] for b_ in bad][:2]), ih.span)
 
     rd = f.one("payload::Reader::<R>::new")
     tr = TermBuilder(rd)
-    ce = agg_fields(rd, "payload::CpioEntry", tr)
-    ce_bb = None
-    for bb in rd.reachable():
-        for st in rd.stmts(bb):
-            if ce is not None and st is ce[2]:
-                ce_bb = bb
+    # every place where Reader::new assembles a CpioEntry: a newc-style one is preceded by the 13 hex fields, the stripped one by 1
     allhex = [c for c in rd.calls() if c.decl.endswith("payload::read_hex_u32")]
-    hexcalls = dom_sorted(rd, [c for c in allhex if ce_bb is not None and rd.dominates(c.bb, ce_bb)])
-    order = {c.bb: i for i, c in enumerate(hexcalls)}
-    rseq = [None] * 13
-    if rep.anchor(ce is not None and len(hexcalls) == 13 and len(allhex) == 14, "R2", "CpioEntry aggregate, 13 newc read_hex_u32 calls and 1 stripped one in Reader::new"):
-        for fld, op in ce[1].items():
-            for lf in rd.origins(op):
-                if lf["kind"] == "call" and lf["call"].decl.endswith("read_hex_u32") and lf["call"].bb in order and order[lf["call"].bb] < 13:
-                    rseq[order[lf["call"].bb]] = fld
-        # namesize is consumed locally (not stored)
-        for lf_c in hexcalls[:13]:
-            pass
-        nm = [c for c in rd.calls() if c.decl == "std::vec::from_elem"]
-        for c in nm:
-            for lf in rd.origins(c.args[1]):
-                if lf["kind"] == "cast":
-                    for l2 in rd.origins(lf["stmt"]["rv"]["o"]):
-                        if l2["kind"] == "call" and l2["call"].bb in order:
-                            rseq[order[l2["call"].bb]] = "name_len"
-        rep.check(rseq == NEWC_FIELDS, "R2", "reader|field-order", "newc reader stores the 13 fields in the same order", "newc reader field order is %s" % rseq, rd.span)
+    aggs = []
+    for bb in sorted(rd.reachable()):
+        for st in rd.stmts(bb):
+            if st["k"] == "assign" and st["rv"]["r"] == "agg" and st["rv"].get("adt", "").endswith("payload::CpioEntry") and st["rv"].get("ak") == "adt":
+                aggs.append((bb, st))
+    newc_like = []
+    stripped_like = []
+    order = {}
+    for (ce_bb, st) in aggs:
+        hexcalls = dom_sorted(rd, [c for c in allhex if rd.dominates(c.bb, ce_bb)])
+        (newc_like if len(hexcalls) == 13 else stripped_like if len(hexcalls) == 1 else []).append((ce_bb, st, hexcalls))
+        if len(hexcalls) == 13:
+            order.update({c.bb: i for i, c in enumerate(hexcalls)})
+    rep.count("cpio_entry_aggregates", len(aggs))
+    used = {c.bb for (_b, _s, hc) in newc_like for c in hc}
+    other_hex = [c for c in allhex if c.bb not in used]
+    if rep.anchor(len(newc_like) >= 1 and len(newc_like) == len(aggs) and len(other_hex) == 1, "R2",
+                  "CpioEntry aggregates in Reader::new each follow 13 read_hex_u32 calls; one further read_hex_u32 reads the stripped index"):
+        for (ce_bb, st, hexcalls) in newc_like:
+            rseq = [None] * 13
+            for fld, op in zip(st["rv"]["fields"], st["rv"]["ops"]):
+                for lf in rd.origins(op):
+                    if lf["kind"] == "call" and lf["call"].decl.endswith("read_hex_u32") and lf["call"].bb in order:
+                        rseq[order[lf["call"].bb]] = fld
+            # namesize is consumed locally (not stored): it sizes the name buffer
+            for c in [c for c in rd.calls() if c.decl == "std::vec::from_elem"]:
+                for c2 in call_leaves(rd, c.args[1]):
+                    if c2.bb in order:
+                        rseq[order[c2.bb]] = "name_len"
+            rep.check(rseq == NEWC_FIELDS, "R2", "reader|field-order", "newc reader stores the 13 fields in the same order", "newc reader field order is %s" % rseq, rd.span)
     rh = f.one("payload::read_hex_u32")
     trh = TermBuilder(rh)
     rx = [c for c in rh.calls() if c.decl == "std::io::Read::read_exact"]
